@@ -47,6 +47,17 @@ def run(tier, seed, replay=None):
                             ("f([m]...)", "func f(x) { x.k = 9 }", "a map passed through a spread")):
         shared.append(("%s\nm = {\"k\": 1}\n%s\nm.k" % (decl, call), "i:9", why + " is the caller's map"))
     detached += shared
+    # a slice, map or pointer read from a typed slot is a reference to what the slot held, not to the slot
+    detached += [
+        ("a = make([][]int64, 1); a[0] = [1, 2]; b = a[0]; a[0] = [7]; [b, a[0]]", "[other:[]int64:[1 2],other:[]int64:[7]]", "a slice read from a slot of a [][]int64 does not follow a later store into the slot"),
+        ("a = make([][]int64, 1); a[0] = [1, 2]; b = a[0]; b[0] = 9; a[0]", "other:[]int64:[9 2]", "... and still shares its elements with what the slot holds"),
+        ("a = make([]map[string]int64, 1); a[0] = {\"k\": 1}; b = a[0]; a[0] = {\"k\": 2}; [b.k, a[0].k]", "[i:1,i:2]", "a map read from a slot of a []map[string]int64"),
+        ("s = make(struct { L []int64 }); s.L = [1]; b = s.L; s.L = [2]; [b, s.L]", "[other:[]int64:[1],other:[]int64:[2]]", "a slice read from a struct field"),
+        ("a = make([][]int64, 1); a[0] = [1, 2]; func f(x) { a[0] = [7]; return x }; f(a[0])", "other:[]int64:[1 2]", "a slice read from a slot and passed to a function"),
+        ("a = make([][]int64, 1); a[0] = [1, 2]; var b = a[0]; a[0] = [7]; b", "other:[]int64:[1 2]", "var binds what the slot held"),
+        ("a = make([][]int64, 2); a[0] = [1]; a[1] = [2]; a[0], a[1] = a[1], a[0]; [a[0], a[1]]", "[other:[]int64:[2],other:[]int64:[1]]", "slots of slice kind swap"),
+        ("a = make([]*int64, 1); a[0] = new(int64); p = a[0]; *p = 4; a[0] = nil; *p", "i:4", "a pointer read from a slot of a []*int64"),
+    ]
     # an ill-typed operand yields an error and leaves the container unchanged - also the part of its storage it shares with a view
     detached += [
         ("a = make([]int64, 3); b = a[0:1]; r = \"ok\"; try { b += [7, \"x\"] } catch e { r = \"E\" }; [r, a, b]", "[s:45,other:[]int64:[0 0 0],other:[]int64:[0]]",
